@@ -77,6 +77,16 @@ def after_every_prelude(battery, name="battery_after_every_kind_of_earlier_conne
     return Enumeration(name, make, exhaustive=True)
 
 
+def with_companion(battery, name="battery_with_a_second_live_connection"):
+    """Enumeration: each case of a small fixed battery while a SECOND connection is alive in the same process
+    (simnet.Companion), in both modes."""
+    def make():
+        for mode in ("interleaved", "blocked_in_send"):
+            for case in battery:
+                yield dict(case, companion={"mode": mode})
+    return Enumeration(name, make, exhaustive=True)
+
+
 class Prop(object):
     id = None
     level = "exploration"
@@ -254,15 +264,22 @@ def guarded_run(prop, case):
     from . import simnet
     # the limit applies to ONE simulated execution: cases of the fault enumerations run thousands
     simnet.ON_RUN = lambda: signal.alarm(CASE_WALL_LIMIT)
+    simnet.ON_BLOCKED = lambda: signal.alarm(20)
     spec = case.get("prelude") if isinstance(case, dict) else None
     try:
         if spec:
             # an earlier connection in the same process precedes every simulated execution of this case
             from . import build
             simnet.CASE_PRELUDE = build.prelude(spec)
+        cspec = case.get("companion") if isinstance(case, dict) else None
+        if cspec:
+            # a second live connection in the same process accompanies every simulated execution of this case
+            simnet.CASE_COMPANION = cspec
         res = prop.run_case(case)
         if spec and isinstance(res.labels, set):
             res.labels.add("after_earlier_connection:" + ("same_object" if spec.get("same") else "other_object"))
+        if cspec and isinstance(res.labels, set):
+            res.labels.add("with_second_live_connection:" + cspec.get("mode", "interleaved"))
         if simnet.BUG_LOG:
             # an error inside the simulation, whatever the client under test made of it
             raise boot.HarnessError("simulation error: %s (case %s)" % (simnet.BUG_LOG[0], canon(case)[:400]))
@@ -273,6 +290,7 @@ def guarded_run(prop, case):
         return failed("no_progress", str(hang))
     finally:
         simnet.CASE_PRELUDE = None
+        simnet.CASE_COMPANION = None
         signal.alarm(0)
 
 
